@@ -348,6 +348,22 @@ ADDENDA = {
            "seen only if it is inside the key range.",
     "C19": "Extended (thin): the hard-link walk prunes (SkipDir) only for a rejected directory, never for a rejected file.",
 }
+ADDENDA2 = {
+    "C03": "Also: the part-wide time range kept by the measure block writer only widens (thin); conflicting-type detection "
+           "keeps its type sets under the decoded column name (thin); stream getDisjointParts keeps the group maximum (fragment).",
+    "C04": "Also: mustWriteMetadata (three engines) returns only after an atomic durable replace; the stream introducers persist "
+           "the manifest of the snapshot they just published (thin); trace loadSnapshot loads secondary-index parts for the "
+           "manifest's list (thin).",
+    "C05": "Also (thin, stream): the introducers publish a new snapshot and persist THAT snapshot's manifest.",
+    "C13": "Also: retainAllVerdict keeps every trace (full); the fragment guard asks every outside part that overlaps the "
+           "grace-widened window (fragment, ghost flag on the filters); every raw block's trace id reaches the part's bloom "
+           "filter (thin).",
+    "C14": "Also (thin): a failed segment open leaves the segment closed.",
+    "C19": "Also: trace TakeFileSnapshot's link loop looks at every file-backed part (fragment); in snapshotInto the segment mutex "
+           "is released early only on the skip path or after pinning an open segment (thin).",
+}
+for _k, _v in ADDENDA2.items():
+    ADDENDA[_k] = (ADDENDA.get(_k, "") + " " + _v).strip()
 for _k, _v in ADDENDA.items():
     CLAIMED[_k]["text"] = CLAIMED[_k]["text"] + " " + _v
 
